@@ -357,7 +357,7 @@ static void summary_statistics(unsigned long long& unit)
 int main(int argc, char** argv)
 {
 	mc::init(argc, argv);
-	if(mc::ctx().replay) { printf("%s\n", mc::ctx().replay_case.c_str()); return 0; }
+	if(mc::ctx().replay) { printf("%s\n(no single-case replay for this part; use ./vcheck --replay <file>, which re-runs the enumeration for this key)\n", mc::ctx().replay_case.c_str()); return 0; }
 	int fd = open("/dev/null", O_WRONLY);
 	dup2(fd, 2);
 	mc::bound("rule", "complete enumeration of the finite parts: all (workers,tasks), all integer (min,max,step) for Range, all step counts for Linear_Space/Log_Space on a (min,max) alphabet, all non-decreasing lists over {0,1,2,3} up to length 6 with all element/midpoint/+-ulp/outside targets, all lists of length 0..4 over 3-letter alphabets of int, double and std::string with all Sub_List index pairs (also under ASan), all permutations of dyadic data sets n<=6");
